@@ -2,6 +2,7 @@ package main
 
 import (
 	"fmt"
+	"runtime"
 	"strconv"
 	"strings"
 	"sync"
@@ -263,14 +264,23 @@ func (w *world) execHW(f []string) (string, string) {
 	seqs := make([][]int32, t) // per trigger (argument = trigger id): the hooks called, in call order
 	var started, finished atomic.Int64
 	type hk struct {
-		id             int32
 		f1, s2, uf, us int64
 		unhook         bool
 		calls          atomic.Int64
 	}
 	const perHooker = 3
 	hooks := make([]*hk, hn*perHooker)
-	var serial atomic.Int32
+	// two hooks that are there from the start and take a little time, so that triggers overlap the hookers
+	var sink atomic.Int64
+	for i := 0; i < 2; i++ {
+		e.Hook(func(arg int) {
+			x := int64(arg)
+			for j := 0; j < 300; j++ {
+				x = x*31 + int64(j)
+			}
+			sink.Add(x & 1)
+		})
+	}
 	var wg sync.WaitGroup
 	start := make(chan struct{})
 	for a := 0; a < g; a++ {
@@ -283,6 +293,9 @@ func (w *world) execHW(f []string) (string, string) {
 				started.Add(1)
 				e.Trigger(a*k + x)
 				finished.Add(1)
+				if x%4 == 0 {
+					runtime.Gosched() // let the hookers in between
+				}
 			}
 		}()
 	}
@@ -295,18 +308,15 @@ func (w *world) execHW(f []string) (string, string) {
 			for b := 0; b < perHooker; b++ {
 				h := &hk{unhook: (a+b)%2 == 0, uf: -1, us: -1}
 				hooks[a*perHooker+b] = h
-				time.Sleep(time.Duration((a*7+b*13)%40) * time.Microsecond)
+				if b > 0 {
+					time.Sleep(time.Duration((a*7+b*13)%40) * time.Microsecond)
+				}
 				h.f1 = finished.Load()
 				var hook *event.Hook[func(int)]
 				hook = e.Hook(func(arg int) {
-					if h.id == 0 {
-						// ids are handed out in Hook order per goroutine; the callback may run before the assignment below
-						// only for triggers concurrent with Hook, the order check skips id 0
-					}
 					h.calls.Add(1)
 					seqs[arg] = append(seqs[arg], int32(a*perHooker+b)+1)
 				})
-				h.id = serial.Add(1)
 				h.s2 = started.Load()
 				if h.unhook {
 					time.Sleep(time.Duration((a*11+b*5)%60) * time.Microsecond)
